@@ -32,7 +32,7 @@ def gate_library(rng=None):
            cirq.ThreeQubitDiagonalGate([0.1 * k for k in range(8)]), cirq.ControlledGate(cirq.Y ** 0.3), cirq.ControlledGate(cirq.ISWAP ** 0.5, control_values=[0]),
            cirq.ControlledGate(cirq.X, num_controls=2, control_values=[0, 1]), cirq.ControlledGate(cirq.Z ** 0.5, control_values=cirq.SumOfProducts([(0, 1), (1, 0)])),
            cirq.ParallelGate(cirq.X ** 0.3, 2), cirq.MSGate(rads=0.4), cirq.DensePauliString("XYZ", coefficient=1j), cirq.PauliStringPhasorGate(cirq.DensePauliString("XZ"), exponent_neg=0.3),
-           cirq.ZPowGate(exponent=0.4, dimension=3), cirq.XPowGate(exponent=1, dimension=3), cirq.GlobalPhaseGate(1j),
+           cirq.ZPowGate(exponent=0.4, dimension=3), cirq.XPowGate(exponent=1, dimension=3), cirq.GlobalPhaseGate(1j), cirq.ParallelGate(cirq.XPowGate(dimension=3), 2), cirq.ParallelGate(cirq.ZPowGate(dimension=3) ** 0.5, 2),
            cirq.BooleanHamiltonianGate(["a", "b"], ["a ^ b"], 0.3), cirq.UniformSuperpositionGate(3, 2)]
     # matrix gates whose analytic synthesis loses a phase that the decomposition has to put back: -1, +-i and generic phases times named matrices
     X_, Y_, Z_, H_ = (cirq.unitary(g) for g in (cirq.X, cirq.Y, cirq.Z, cirq.H))
